@@ -992,13 +992,20 @@ def new_overwrite(repo: Path) -> bool:
     if ow is None:
         fail(fn, "save_to_files: `overwrite` must default to a bool constant")
     exm = Mod.get(repo, "pyxel/exposure/exposure.py")
-    calls = []
-    for f in [n for n in ast.walk(exm.tree) if isinstance(n, ast.FunctionDef)]:
-        if any(_is_name(c.func, "save_to_files") for c in ast.walk(f) if isinstance(c, ast.Call)) \
-                and not any(f is not g and f in ast.walk(g) for g in ast.walk(exm.tree) if isinstance(g, ast.FunctionDef)):
-            cls = next((c for c in exm.classes.values() if f in c.body), None)
-            sym = Sym(exm, f, cls)
-            calls += [c for _, c in sites(sym, name="save_to_files")]
+    # every function / method of exposure.py is a root; a private helper is read where it is called (arguments bound)
+    roots = [(None, f) for f in exm.funcs.values()] + [(c, m) for c in exm.classes.values() for m in c.body
+                                                        if isinstance(m, ast.FunctionDef)]
+    syms = [(f, Sym(exm, f, c)) for c, f in roots
+            if any(isinstance(n, ast.Call) for n in ast.walk(f))]
+    followed = set().union(*[sy.followed for _, sy in syms]) if syms else set()
+    calls, seen = [], set()
+    for f, sy in syms:
+        if f.name in followed:
+            continue
+        for _, c in sites(sy, name="save_to_files"):
+            if _dump(c) not in seen:
+                seen.add(_dump(c))
+                calls.append(c)
     if len(calls) != 1:
         fail(exm.tree, f"expected one save_to_files call in exposure.py, found {len(calls)}")
     args = bind_call(calls[0], fn)
